@@ -160,6 +160,42 @@ def run_one(ctx: Ctx, sc):
     return o
 
 
+def concurrent_pairs(ctx: Ctx, cases, terms):
+    """two functions of the SAME kind (different names / namespaces) reconciled concurrently in one event
+    loop, interleaved at the read: each must still create / patch its own object under its own identity"""
+    for _ in range(40 if ctx.quick() else 500):
+        a = adversarial(ctx.rng)
+        b = adversarial(ctx.rng)
+        for sc in (a, b):
+            sc["cfg"]["plural"] = "widgets"
+            sc["lookup"] = None
+            sc["cfg"]["namespaced"] = a["cfg"]["namespaced"]
+        kind = f"Wc{next(m._kind_counter)}"
+        a["cfg"]["kind"] = b["cfg"]["kind"] = kind
+        a["tag"], b["tag"] = "-a", "-b"
+        a["name"] = ["Ok", "first", "ns1" if a["cfg"]["namespaced"] else None]
+        b["name"] = ["Ok", "second", ctx.rng.choice(["ns1", "ns2"]) if a["cfg"]["namespaced"] else None]
+        for sc in (a, b):
+            if sc["live"] == "derive":
+                m.prepare_live(sc, ctx.rng)
+        lat = ctx.rng.choice([[2.0, 1.0], [1.0, 2.0], [1.0, 1.0], [3.0, 0.5]])
+        obs = m.run_concurrent([a, b], lat)
+        if obs is None:
+            ctx.count("concurrent:prepare_failed")
+            continue
+        for sc, o in zip((a, b), obs):
+            methods = tuple(x["m"] for x in o["calls"])
+            ctx.count("concurrent:" + ",".join(methods))
+            ctx.note_case({"concurrent": True, "name": sc["name"], "template": sc["template"], "overlays": sc["overlays"]},
+                          nontrivial=("POST" in methods or "PATCH" in methods))
+            for sig, what in oracle(sc, o):
+                ctx.fail(Failure(signature=sig + " (concurrent reconciles of one kind)", what=what,
+                                 case={"concurrent": [a, b], "latencies": lat},
+                                 observed={"outcome": o["outcome"], "calls": [{k: v for k, v in c.items() if k != "body"} for c in o["calls"]]}))
+            cases.append(sc)
+            terms.append(m.c_case(sc, o))
+
+
 def run(ctx: Ctx):
     cases, terms = [], []
     for sc in scenarios(ctx):
@@ -173,12 +209,21 @@ def run(ctx: Ctx):
         ctx.count("outcome:" + o["outcome"]["cls"])
         cases.append(sc)
         terms.append(m.c_case(sc, o))
+    concurrent_pairs(ctx, cases, terms)
     if ctx.model_ok:
         ctx.correspond("reconcile_resource_function vs ResourceFn.reconcile_rf", "Corr_RF", cases, terms)
 
 
 def replay(ctx: Ctx, data):
     sc = data["case"] if "case" in data else data
+    if "concurrent" in sc and isinstance(sc["concurrent"], list):
+        a, b = sc["concurrent"]
+        obs = m.run_concurrent([a, b], sc["latencies"])
+        for s1, o in zip((a, b), obs or []):
+            for sig, what in oracle(s1, o):
+                ctx.fail(Failure(signature=sig + " (concurrent reconciles of one kind)", what=what, case=sc))
+        ctx.note_case(sc, True)
+        return
     o = run_one(ctx, sc)
     ctx.note_case(sc, True)
     if o is not None and ctx.model_ok:
